@@ -2,6 +2,7 @@ package record
 
 import (
 	"encoding/binary"
+	"github.com/cockroachdb/errors"
 	"io"
 	"math"
 
@@ -111,6 +112,8 @@ func VerifHarness_C19_CorruptionReported() {
 	}
 }
 
+var wantFirstH bool
+
 // VerifHarness_C19_AcceptedChunkIsValid: one step of nextChunk from an
 // arbitrary reader state over arbitrary block content. A chunk it accepts has a
 // matching checksum over exactly its bytes, lies inside the valid part of the
@@ -128,12 +131,35 @@ func VerifHarness_C19_AcceptedChunkIsValid() {
 	copy(r.buf[:], blk)
 	sym.LoopBound("nextChunk", 0, func() {
 		sym.Assert(0 <= r.begin && r.begin <= r.end && r.end <= r.n && r.n <= blockSize, "reader-invariant-at-back-edge")
+		// The step went round the loop without reading a new block: either it skipped the zeroed
+		// tail of the block (begin untouched), or it stepped over a chunk that is not a record
+		// start. A chunk that is stepped over has been checked like an accepted one - the type byte
+		// that made it skippable is covered by the checksum.
+		if r.blockNum == 0 && r.begin != pos {
+			sym.Assert(wantFirstH, "only-a-record-start-search-steps-over-chunks")
+			stored := binary.LittleEndian.Uint32(blk[pos : pos+4])
+			sym.Assert(stored == crc.New(blk[pos+6:r.end]).Value(), "stepped-over-chunk-has-matching-checksum")
+			sym.Reach("stepped-over")
+		}
 	})
 	// lengths above 3 share the (memory, offset, length) checksum term; the harness recomputes the
 	// checksum over the same memory, so equality is still decided
 	sym.CrcBound(3)
 	wantFirst := sym.Bool("wantFirst")
+	wantFirstH = wantFirst
 	err := r.nextChunk(wantFirst)
+	if !sym.Symbolic() && pos+legacyHeaderSize <= n && int(blk[pos+6]) < len(headerFormatMappings) {
+		// Native replay only (the engine decides this at the loop's back edge, a place an ordinary
+		// run cannot stop at): a well-formed chunk at pos whose checksum does not match is where
+		// the step ends, with the error pointing at it.
+		hf := headerFormatMappings[blk[pos+6]]
+		end := pos + hf.headerSize + int(binary.LittleEndian.Uint16(blk[pos+4:pos+6]))
+		wellFormed := hf.wireFormat != invalidWireFormat && hf.chunkPosition != invalidChunkPosition && end <= n &&
+			(hf.wireFormat == legacyWireFormat || binary.LittleEndian.Uint32(blk[pos+7:pos+11]) == logNum)
+		if wellFormed && binary.LittleEndian.Uint32(blk[pos:pos+4]) != crc.New(blk[pos+6:end]).Value() {
+			sym.Assert(errors.Is(err, ErrInvalidChunk) && r.invalidOffset == uint64(pos+hf.headerSize), "stepped-over-chunk-has-matching-checksum")
+		}
+	}
 	if err != nil {
 		sym.Reach("rejected")
 		return
